@@ -563,7 +563,7 @@ def _focused(V, tier, prop, progs, checks=("result", "boundary", "link"), pertur
 def C07(V, tier):
     op_replay(V, workdir("C07r"), tier, "C07", ["fold", "kfold"])
     rng = random.Random(seed() + 7)
-    _focused(V, tier, "C07", gen.agg_programs(rng, 70 if tier == "quick" else 700), checks=("result",))
+    _focused(V, tier, "C07", gen.agg_programs(rng, 70 if tier == "quick" else 700), checks=("result", "conform"))
 
 
 # ------------------------------------------------------------------------------------------------
@@ -904,16 +904,14 @@ def C08(V, tier):
     interval_join_replay(V, workdir("C08i"), tier)
     rng = random.Random(seed() + 8)
     results, traces, jobs_by_id = _focused(V, tier, "C08", gen.join_programs(rng, 60 if tier == "quick" else 600),
-                                           checks=("result",), perturb_us=400)
-    jobsuite.binary_conform(V, workdir("C08c"), traces, results, jobs_by_id)
+                                           checks=("result", "conform"), perturb_us=400)
 
 
 def C09(V, tier):
     binary_replay(V, workdir("C09r"), tier, "C09", [("zip", {}), ("merge", {})])
     rng = random.Random(seed() + 9)
     results, traces, jobs_by_id = _focused(V, tier, "C09", gen.fan_programs(rng, 60 if tier == "quick" else 600),
-                                           checks=("result",))
-    jobsuite.binary_conform(V, workdir("C09c"), traces, results, jobs_by_id)
+                                           checks=("result", "conform"))
 
 
 def C16(V, tier):
@@ -946,7 +944,7 @@ def C10(V, tier):
     q = tier == "quick"
     # D: results of loop programs (final state, iterate output) against the sequential loop semantics
     progs = gen.loop_programs(rng, 40 if q else 400)
-    _focused(V, tier, "C10", progs, checks=("result", "boundary"), perturb_us=300)
+    _focused(V, tier, "C10", progs, checks=("result", "boundary", "conform"), perturb_us=300)
     # T: per-round state reads, lock discipline, leader decisions, on replay loops with state-reading
     # bodies, multi-host layouts, with the state feedback of one host held back (schedule from the
     # counterexample of the no-wait variant of the model)
@@ -1022,7 +1020,7 @@ def C11(V, tier):
     sideinput_model(V, workdir("C11m"), tier)
     rng = random.Random(seed() + 11)
     progs = gen.loop_programs(rng, 40 if tier == "quick" else 400, nested=False, side=True)
-    results, traces, jobs_by_id = _focused(V, tier, "C11", progs, checks=("result", "boundary"), perturb_us=300)
+    results, traces, jobs_by_id = _focused(V, tier, "C11", progs, checks=("result", "boundary", "conform"), perturb_us=300)
     # T: per round and per replica, what the block that combines the loop stream with the outside stream
     # was handed by its Start (start_out hook), against what it received from the network once
     wd = workdir("C11t")
@@ -1035,7 +1033,6 @@ def C11(V, tier):
         V.add_violation(v, replay=jobs_by_id.get(v.get("job")))
     V.coverage["states"] += states
     V.coverage["transitions"] += states
-    jobsuite.binary_conform(V, workdir("C11c"), traces, results, jobs_by_id)
     V.coverage["side_rounds_checked"] = sum(1 for r in recs if r["ev"] == "out" and r["k"] == "FR")
     V.coverage["side_items_replayed"] = sum(1 for r in recs if r["ev"] == "out" and r["k"] == "S")
     if V.coverage["side_rounds_checked"] < 20:
